@@ -4,6 +4,7 @@ import (
 	"fmt"
 	"go/ast"
 	"go/token"
+	"golang.org/x/tools/go/packages"
 	"math"
 	"strings"
 )
@@ -359,6 +360,55 @@ func checkC06(c *Check) {
 			}
 		})
 		r4.Decide(len(problems) == 0 && n > 0, "VisitCastExpr Variable → "+target.String(), token.NoPos, "type test with Laufzeitfehler on mismatch", strings.Join(uniq(problems), "; ")+": converting a Variable that holds another type yields garbage instead of stopping")
+	}
+
+	// R6.4 for type definitions: `v als Nummer` (Wir definieren eine Nummer als eine Zahl) must test for the definition's OWN
+	// type tag (typeDefVTables[name of the definition]), not for the tag of the type it is defined as: a Variable holding a
+	// plain Zahl is out of the domain of this conversion, one holding a Nummer is in it
+	for _, base := range []*DT{{Kind: "ZAHL"}, {Kind: "TEXT"}} {
+		target := &DT{Kind: "TYPEDEF", Name: "Nummer", Base: base}
+		in2, mk2 := newGeneratorInterp(L)
+		tdTag := &IRVal{Op: "operand", Src: "vtable of the definition", Class: "ptr"}
+		in2.Models["compiler.(*compiler).mangledNameType"] = func(in *Interp, pkg *packages.Package, call *ast.CallExpr, recv Val, args []Val) (Val, bool) {
+			if tv, ok := args[0].(TypeV); ok && tv.T != nil && tv.T.Kind == "TYPEDEF" {
+				return StrV(tv.T.Name), true
+			}
+			return StrV("?other"), true
+		}
+		var compared []Val
+		in2.Models["compiler.(*compiler).compareAnyType"] = func(in *Interp, pkg *packages.Package, call *ast.CallExpr, recv Val, args []Val) (Val, bool) {
+			if len(args) == 2 {
+				compared = append(compared, args[1])
+			}
+			return &IRVal{Op: "compareAnyType", Args: []*IRVal{asIR(args[0])}, Class: "i1"}, true
+		}
+		node := genNode("ast.CastExpr", nil, []string{"lhs"}, []*DT{anyT})
+		node.set("TargetType", TypeV{target})
+		var problems []string
+		n := 0
+		in2.RunAll(32, func() {
+			compared = nil
+			cobj := mk2()
+			cobj.set("typeDefVTables", MapV{Keys: []Val{StrV("Nummer")}, Vals: []Val{tdTag}, Exact: true})
+			in2.CallFunc(L.Fn("src/compiler.(*compiler).VisitCastExpr"), cobj, []Val{node})
+			for _, e := range in2.Events {
+				if e.Kind == "cerr" || e.Kind == "panic" {
+					problems = append(problems, e.Kind+": "+e.Msg)
+					return
+				}
+			}
+			n++
+			if len(compared) == 0 {
+				problems = append(problems, "no comparison of the held type with the target type")
+				return
+			}
+			for _, cv := range compared {
+				if iv, ok := cv.(*IRVal); !ok || iv != tdTag {
+					problems = append(problems, "the held type is compared with the tag of the underlying type (or an unknown tag), not with the tag of the definition itself")
+				}
+			}
+		})
+		r4.Decide(len(problems) == 0 && n > 0, "VisitCastExpr Variable → Typdefinition Nummer("+base.String()+")", token.NoPos, "the type test uses the definition's own tag", strings.Join(uniq(problems), "; ")+": a Variable holding a plain "+base.String()+" converts silently, one holding a Nummer stops with a Laufzeitfehler")
 	}
 
 	// ---------------- R6.5 todo ----------------
